@@ -62,7 +62,7 @@ def summarize(crate, path, ck=None, closure=False):
     if b is None:
         return None, None
     ps = pathsum.PathSum(enums_of(crate))
-    v = crate.fn_value(path)
+    v = hir.async_full(b["value"])
     params = b["params"]
     if closure:
         c = returned_closure(v)
